@@ -77,10 +77,10 @@ Hypothesis good_split : forall s, good s ->
   good (fst (split_line LF s)) /\ good (snd (split_line LF s)).
 Hypothesis next_raw_enc : forall s, good s ->
   next_raw e (enc_ s) =
-  IoDone (match fst (split_line LF s) with
-          | [] => None
-          | _ :: _ => Some (enc_ (fst (split_line LF s)), enc_ (snd (split_line LF s)))
-          end).
+  match fst (split_line LF s) with
+  | [] => None
+  | _ :: _ => Some (enc_ (fst (split_line LF s)), enc_ (snd (split_line LF s)))
+  end.
 Hypothesis dec_enc : forall s, good s -> decode e (enc_ s) = Done s.
 
 Lemma lines_pure_enc : forall n m s, good s -> (length s < n)%nat -> (length s < m)%nat ->
@@ -114,10 +114,10 @@ Hypothesis good_app : forall a b, good (a ++ b) <-> good a /\ good b.
 
 Lemma next_raw_nonle : forall s, good s ->
   next_raw e (enc_ s) =
-  IoDone (match fst (split_line LF s) with
-          | [] => None
-          | _ :: _ => Some (enc_ (fst (split_line LF s)), enc_ (snd (split_line LF s)))
-          end).
+  match fst (split_line LF s) with
+  | [] => None
+  | _ :: _ => Some (enc_ (fst (split_line LF s)), enc_ (snd (split_line LF s)))
+  end.
 Proof.
   intros s G. unfold next_raw. rewrite e_not_le. cbn [andb].
   destruct (split_line_decomp s) as [(N & H)|(p & q & Hs & N & H)]; rewrite H; cbn [fst snd].
@@ -299,10 +299,10 @@ Proof. intros. rewrite flat_map_app. cbn [flat_map le_bytes app]. rewrite <- app
 
 Lemma next_raw_le : forall s, good16 s ->
   next_raw Utf16LE (utf16le_enc s) =
-  IoDone (match fst (split_line LF s) with
-          | [] => None
-          | _ :: _ => Some (utf16le_enc (fst (split_line LF s)), utf16le_enc (snd (split_line LF s)))
-          end).
+  match fst (split_line LF s) with
+  | [] => None
+  | _ :: _ => Some (utf16le_enc (fst (split_line LF s)), utf16le_enc (snd (split_line LF s)))
+  end.
 Proof.
   intros s G. unfold next_raw. cbn [enc_is_le andb].
   destruct (split_line_decomp s) as [(N & H)|(p & q & Hs & N & H)]; rewrite H; cbn [fst snd].
@@ -545,50 +545,37 @@ Proof.
   pose proof (utf8_roundtrip s S) as R. cbn [decode] in R. congruence.
 Qed.
 
-(* ---------- a clean stream fails only in UTF-16LE (bounds D6) ---------- *)
+(* ---------- a clean stream never fails (D6 repaired) ---------- *)
 
-Lemma lines_pure_non_le : forall n e b, enc_is_le e = false -> (length b < n)%nat ->
-  exists ls, lines_pure n e b = IoDone ls.
+(* the schedule-free reference is total: every byte string has lines, in
+   every encoding *)
+Lemma lines_pure_done : forall n e b, (length b < n)%nat -> exists ls, lines_pure n e b = IoDone ls.
 Proof.
-  induction n as [|n IH]; intros e b E L; [lia|].
-  cbn [lines_pure]. unfold next_raw. rewrite E. cbn [andb].
-  pose proof (split_line_length LF b) as Hl.
-  destruct (split_line LF b) as [l r]. cbn [fst snd] in Hl.
-  destruct l as [|x t]; [eexists; reflexivity|]. cbn [io_bind].
+  induction n as [|n IH]; intros e b L; [lia|].
+  cbn [lines_pure]. destruct (next_raw e b) as [[l r]|] eqn:Hn; [|eexists; reflexivity].
+  pose proof (next_raw_length _ _ _ _ Hn) as Lr.
   rewrite (decode_dec decode_utf8_lossy_spec). cbn [io_of_outcome io_bind].
-  destruct (IH e r E) as (ls & H); [cbn [length] in Hl; lia|]. rewrite H. cbn [io_bind]. eexists; reflexivity.
+  destruct (IH e r) as (ls & H); [lia|]. rewrite H. cbn [io_bind]. eexists; reflexivity.
 Qed.
 
-(* on a faultless delivery outside the D4 class an error can only come from the
-   UTF-16LE arm (read_exact after a line feed) *)
-Theorem clean_stream_error_only_le : forall b s k,
-  faultless s -> good_start (length b) s = true ->
-  read_all_lines (mk_reader b s) = IoErr k ->
-  fst (from_bom b) = Utf16LE /\ k = UnexpectedEof.
+Theorem decode_stream_done : forall b, exists ls, decode_stream b = IoDone ls.
 Proof.
-  intros b s k F G H. rewrite (read_all_lines_faultless decode_utf8_lossy_spec b s F G) in H.
-  unfold decode_stream in H. destruct (Nat.ltb (length b) min_bom_len); [discriminate|].
-  destruct (from_bom b) as [e c] eqn:Hb. cbn [fst].
-  destruct (enc_is_le e) eqn:E.
-  - split; [destruct e; try discriminate; reflexivity|].
-    (* the only error lines_pure can produce is the one of next_raw *)
-    assert (X : forall n b0 k0, lines_pure n Utf16LE b0 = IoErr k0 -> k0 = UnexpectedEof).
-    { induction n as [|n IH]; intros b0 k0 H0; [discriminate|].
-      cbn [lines_pure] in H0. unfold next_raw in H0.
-      destruct (split_line LF b0) as [l r]. destruct l as [|x t]; [discriminate|].
-      destruct (enc_is_le Utf16LE && ends_with_lf (x :: t)).
-      - destruct r as [|y r']; [cbn [io_bind] in H0; congruence|].
-        cbn [io_bind] in H0. rewrite (decode_dec decode_utf8_lossy_spec) in H0. cbn [io_of_outcome io_bind] in H0.
-        destruct (lines_pure n Utf16LE r') eqn:Hr; cbn [io_bind] in H0; try discriminate.
-        inversion H0; subst. exact (IH _ _ Hr).
-      - cbn [io_bind] in H0. rewrite (decode_dec decode_utf8_lossy_spec) in H0. cbn [io_of_outcome io_bind] in H0.
-        destruct (lines_pure n Utf16LE r) eqn:Hr; cbn [io_bind] in H0; try discriminate.
-        inversion H0; subst. exact (IH _ _ Hr). }
-    destruct e; try discriminate. exact (X _ _ _ H).
-  - destruct (lines_pure_non_le (S (length b)) e (skipn c b) E) as (ls & Hl).
-    + rewrite skipn_length. lia.
-    + rewrite Hl in H. discriminate.
+  intros b. unfold decode_stream. destruct (Nat.ltb (length b) min_bom_len); [eexists; reflexivity|].
+  destruct (from_bom b) as [e c]. apply lines_pure_done. rewrite skipn_length. lia.
 Qed.
+
+(* for EVERY faultless delivery (any chunking, also inside the D4 class, any
+   placement of Interrupted), every byte string and every encoding the decode
+   yields a list of lines: no Err, no panic, no exhausted fuel *)
+Theorem clean_stream_never_fails : forall b s,
+  faultless s -> exists ls, read_all_lines (mk_reader b s) = IoDone ls.
+Proof. intros b s F. apply (read_all_lines_faultless_done decode_utf8_lossy_spec). exact F. Qed.
+
+(* a UTF-16LE stream that ends right after the low byte of a line feed (the
+   former class D6): the odd byte forms a last raw line that decodes to the
+   empty string -- the lines of the text, then one blank line *)
+Lemma next_raw_le_lf_end : next_raw Utf16LE [LF] = Some ([LF], []).
+Proof. reflexivity. Qed.
 
 (* ---------- BufReader::with_capacity(c, _) for c >= 3 ---------- *)
 
